@@ -45,6 +45,9 @@ CHECKS = {
     'C07': ('model_checking', 'DESIGN.md C07',
             'emitdata: the printed items, decoded back to bytes, equal the image denoted by a sorted initializer list with symbolic offsets, bit positions, widths '
             'and values (size and alignment included); initadd: one step from an arbitrary valid list keeps exactly the initializers not covered by the new one.'),
+    'C12': ('model_checking', 'DESIGN.md C12',
+            'Kernels only: stringize on token sequences with symbolic kinds/spellings/space flags against C11 6.10.3.2p2, macroequal on two symbolic macro definitions against 6.10.3p2. '
+            'Argument collection, pre-expansion, rescanning and hide/paint behaviour are NOT claimed (no verdict within reach of bounded symbolic execution, measured).'),
     'C13': ('model_checking', 'DESIGN.md C13',
             'Every token start (257 concrete first bytes, second byte concrete too where it re-dispatches) x all continuations up to N bytes: the real scanner '
             'step agrees with an independent C11 6.4 reference lexer on kind, spelling, consumed length, residual stream and location; nextchar is the phase-2 '
@@ -68,7 +71,9 @@ CHECKS = {
 }
 THOROUGH = set(CHECKS)
 
-NOT_APPLICABLE = {}
+NOT_APPLICABLE = {
+    'C02': 'needs a stage-2 compiler: there is no QBE backend, assembler or linker in the sandbox, and a whole-program symbolic run of the compiler on its own sources is far beyond bounded symbolic checking; the function-wise translation validation sketched in DESIGN.md (emitted IL of cproc\'s own leaf functions vs their C semantics) was not built in this round',
+}
 
 
 def main():
